@@ -127,6 +127,21 @@ def find_region(finfo: FuncInfo, region):
                         if k.arg == "func":
                             return k.value
         raise KeyError(f"request {arg!r} not registered in {finfo.key}")
+    if kind == "block":
+        # a run of consecutive statements inside a long function, located by the source text its first statement starts
+        # with (must be unique in the function): {"start": "...", "count": n}
+        start, count = arg["start"], arg.get("count", 1)
+        hits = []
+        for n in ast.walk(finfo.node):
+            for fld in ("body", "orelse", "finalbody"):
+                seq = getattr(n, fld, None)
+                if isinstance(seq, list):
+                    for j, stt in enumerate(seq):
+                        if isinstance(stt, ast.stmt) and ast.unparse(stt).startswith(start):
+                            hits.append(seq[j:j + count])
+        if len(hits) != 1 or len(hits[0]) != count:
+            raise KeyError(f"block starting with {start!r} found {len(hits)} times in {finfo.key} (or shorter than {count} statements)")
+        return hits[0]
     raise KeyError(region)
 
 
@@ -134,7 +149,19 @@ def run_path(I: Interp, finfo: FuncInfo, con: Contract):
     st = I.st
     fnode = finfo.node
     outer = None
-    if con.region is not None:
+    block = None
+    if con.region is not None and con.region[0] == "block":
+        # the free variables of the block are the names the contract declares types for: symbolic entry values
+        block = find_region(finfo, con.region)
+        fr = Frame(finfo.module, finfo.cls, None, finfo, None, con)
+        for nm, ann in con.types.items():
+            if "." in nm:
+                continue
+            v = SV(z3.Const(nm, Val), T.parse_ann(parse_expr(ann), finfo.module, finfo.cls))
+            st.assume_wt(v)
+            fr.locals[nm] = v
+        fnode = None
+    elif con.region is not None:
         fnode = find_region(finfo, con.region)
         outer = closure_frame(I, finfo, con)
         if isinstance(fnode, ast.Name):
@@ -172,7 +199,12 @@ def run_path(I: Interp, finfo: FuncInfo, con: Contract):
     ret = None
     raised = None
     try:
-        if isinstance(fnode, ast.Lambda):
+        if block is not None:
+            I.exec_block(block, fr)
+            ret = const(None)
+            for nm, v in fr.locals.items():  # names the block binds are visible to the postconditions
+                sf.locals.setdefault(nm, v)
+        elif isinstance(fnode, ast.Lambda):
             ret = I.ev(fnode.body, fr)
         else:
             I.exec_block(fnode.body, fr)
@@ -442,10 +474,15 @@ def verify_fuc(key: str, cfg: dict) -> FucResult:
         res.file = finfo.module.relpath
         res.qualname = key.split("::", 1)[1]
         node = finfo.node if con.region is None else find_region(finfo, con.region)
-        seg = ast.get_source_segment(finfo.module.text, node) or ""
+        if isinstance(node, list):  # block region
+            seg = "\n".join(ast.get_source_segment(finfo.module.text, n_) or "" for n_ in node)
+            first_, last_ = node[0], node[-1]
+        else:
+            seg = ast.get_source_segment(finfo.module.text, node) or ""
+            first_ = last_ = node
         import hashlib
         res.sha = hashlib.sha256(seg.encode()).hexdigest()
-        res.lines = (node.lineno, getattr(node, "end_lineno", node.lineno))
+        res.lines = (first_.lineno, getattr(last_, "end_lineno", last_.lineno))
         work = [list(cfg.get("start_trace", []))]
         prefixes = []
         timeout_ms = cfg.get("timeout_ms", 10000)
